@@ -633,7 +633,28 @@ def r11(ctx: Context, class_filter=None) -> None:
             n11 += 1
             hs = [h for h in ast.walk(m.node) if isinstance(h, ast.ExceptHandler) and not (h.body and isinstance(h.body[-1], ast.Raise))]
             if m.qualname in ALLOWED:
-                ctx.ok("R11", f"{m.qualname}::errors-are-not-swallowed", m.loc(), "allowed: " + ALLOWED[m.qualname])
+                # the allowance is for a retry that ENDS in the statement's result or in an error: every `return` sits in a
+                # try body and returns the executed statement's own result; falling out of the retry loop raises
+                bad_ret = None
+                pm_ = parent_map(m.node)
+                for r_ in [x for x in walk_no_nested(m.node) if isinstance(x, ast.Return)]:
+                    in_try_body = False
+                    cur = r_
+                    while True:
+                        par = pm_.get(id(cur))
+                        if par is None:
+                            break
+                        if isinstance(par, ast.Try) and any(cur is b_ for b_ in par.body):
+                            in_try_body = True
+                            break
+                        if isinstance(par, ast.ExceptHandler):
+                            break
+                        cur = par
+                    if not (in_try_body and isinstance(r_.value, ast.Call) and call_name(r_.value) in ("execute", "executemany", "executescript")):
+                        bad_ret = r_
+                ends_raising = bool(m.node.body) and isinstance(m.node.body[-1], ast.Raise)
+                okA = bad_ret is None and ends_raising
+                ctx.add("R11", f"{m.qualname}::errors-are-not-swallowed", okA, m.loc(bad_ret) if bad_ret is not None else m.loc(), ("allowed: " + ALLOWED[m.qualname]) if okA else (f"`{ast.unparse(bad_ret)[:50]}` returns without the statement having executed" if bad_ret is not None else "the retry loop can be left without the statement having executed and without an error") + ": every SQLite component runs its statements through this wrapper - a skipped INSERT loses a routed message, a skipped BEGIN IMMEDIATE / DELETE delivers a message twice, while the caller sees a normal return")
                 continue
             ctx.add("R11", f"{m.qualname}::errors-are-not-swallowed", not hs, m.loc(hs[0]) if hs else m.loc(), "" if not hs else f"`except {ast.unparse(hs[0].type) if hs[0].type else ''}` ends without re-raising: a failed {c.name} operation is reported as an ordinary result (empty / default / done), which the sibling backend - where the failure cannot occur - never returns for that state")
     ctx.floor("R11", "backend methods", n11, 150 if class_filter is None else 10)
